@@ -36,6 +36,18 @@ def _legs(tier):
             "trace": ("ATAsyncCommit_Trace", "ATAsyncCommit_Trace.cfg"),
             "shards": 12, "gen_timeout": 600, "heap": "4g",
         })
+    # the same scenarios under the race detector (one setting with two fanout workers): the run loop, the fanout
+    # workers and the request goroutines share the queue, the retry list and the batch buffers; every distinct
+    # report is a trace of one event ("Race") that the trace specification has no action for.  The reports
+    # aggregate over the whole leg, so a rejection is reproduced by re-running the leg.
+    name, env = _setting(3, 2, 2, 1)
+    out.append({
+        "name": "asyncc-race-" + name, "driver": "asyncc", "race": True, "env": dict(env, C11_RACE="1"),
+        "gen_quick": [("ATAsyncCommit_Gen", "ATAsyncCommit_Gen_Quick.cfg")],
+        "gen_thorough": [("ATAsyncCommit_Gen", "ATAsyncCommit_Gen_Thorough.cfg")],
+        "trace": ("ATAsyncCommit_Trace", "ATAsyncCommit_Trace.cfg"),
+        "shards": 12, "gen_timeout": 600, "heap": "4g", "repro_full": True,
+    })
     return out
 
 
